@@ -31,6 +31,11 @@ def gen_headers(rnd, n, avoid_framing=True):
             val = 'a:b:c ' + ''.join(rnd.choice(VALCH) for _ in range(rnd.randint(0, 10))) + ':'
         else:
             val = ''.join(rnd.choice(VALCH) for _ in range(rnd.randint(1, 40)))
+        if rnd.random() < 0.08 and val:
+            # obs-text (bytes 0x80..0xff, allowed in field values): inside and,
+            # above all, at the very end of the value
+            hi = ''.join(chr(rnd.randrange(0x80, 0x100)) for _ in range(rnd.randint(1, 4)))
+            val = rnd.choice([val + hi, val + hi, hi, val[:len(val) // 2] + hi + val[len(val) // 2:]])
         if rnd.random() < 0.06:
             # names that merely start like (or end like) a framing header, with
             # values a framing header could carry: they must not frame anything
